@@ -610,6 +610,9 @@ func pcInput(r *Rng, addr int) []byte {
 		if r.Chance(3, 4) {
 			copy(in[32:64], word(27+r.Intn(2)))
 		}
+		if r.Bool() {
+			return in
+		}
 		return in[:r.Range(100, 128)]
 	case 5:
 		bl, el, ml := r.Intn(40), r.Intn(12), r.Intn(40)
@@ -627,11 +630,17 @@ func pcInput(r *Rng, addr int) []byte {
 		if r.Bool() {
 			in[95], in[127] = 1, 2
 		}
+		if r.Bool() {
+			return in
+		}
 		return in[:r.Range(60, 128)]
 	case 7:
 		in := make([]byte, 96)
 		in[31], in[63] = 1, 2
 		copy(in[64:], r.Bytes(32))
+		if r.Bool() {
+			return in
+		}
 		return in[:r.Range(64, 96)]
 	case 8:
 		return make([]byte, 192*r.Intn(3))
@@ -653,7 +662,16 @@ func pcInput(r *Rng, addr int) []byte {
 
 func pcSibling(r *Rng, in []byte) []byte {
 	out := append([]byte{}, in...)
-	switch r.Intn(6) {
+	switch r.Intn(8) {
+	case 6, 7: // differ only in the last byte(s) a fixed-length precompile reads (96, 128, 160, 192, 213)
+		for _, n := range []int{96, 128, 160, 192, 213} {
+			if len(out) <= n && len(out) > n-40 {
+				out = append(out, make([]byte, n-len(out))...)
+				out[n-1-r.Intn(2)] ^= byte(1 + r.Intn(255))
+				break
+			}
+		}
+		return out
 	case 0:
 		return append(out, r.Bytes(r.Range(1, 40))...)
 	case 1:
